@@ -974,3 +974,39 @@ def m_iter_any_dispatch(I, st, args, c, dest, target, span):
 
 
 MODELS["core::iter::traits::iterator::Iterator::any"] = m_iter_any_dispatch
+
+
+# ------------------------------------------------------------------ addresses of slots (get_node_id)
+RANGE = "core::ops::range::Range"
+
+
+@model("core::slice::<impl [T]>::as_ptr_range")
+def m_as_ptr_range(I, st, args, c, dest, target, span):
+    if not is_nodes_vec(I, st, args[0]):
+        raise Undecided("as_ptr_range of an unknown slice")
+    return VStruct(RANGE, (("start", VOpaque("nodes-ptr-start")), ("end", VOpaque("nodes-ptr-end"))))
+
+
+@model("core::ops::range::Range::<Idx>::contains")
+def m_range_contains(I, st, args, c, dest, target, span):
+    r = deref(I, st, args[0])
+    if not (isinstance(r, VStruct) and r.adt == RANGE and isinstance(r.get("start"), VOpaque) and r.get("start").tag == "nodes-ptr-start"):
+        raise Undecided("Range::contains on an unknown range")
+    p = I.force(st, args[1])
+    while isinstance(p, VRef) and p.root[0] != "node" and p.root[0] != "foreign":
+        p = I.force(st, I.load(st, p.root, p.path))
+    if isinstance(p, VRef) and p.root[0] == "node" and not p.path:
+        # distinct allocations are disjoint; a slot of this arena lies inside its own slice
+        return VBool(st.nodes[p.root[1]].invec)
+    if isinstance(p, VRef) and p.root[0] == "foreign":
+        return VBool(False)
+    raise Undecided("Range::contains of %r" % (p,))
+
+
+@model("core::mem::size_of")
+def m_size_of(I, st, args, c, dest, target, span):
+    targs = [I.prog.ty(a) for a in (c.get("args") or []) if isinstance(a, int)]
+    if targs and targs[0].get("path") == NODE:
+        st.bounds[("size",)] = (1, ISIZE_MAX)        # Node<T> is never zero-sized (it holds a stamp)
+        return VInt(Lin(0, ("size",), 1), 64, False)
+    raise Undecided("size_of of an unexpected type")
